@@ -44,13 +44,13 @@ type histDef struct {
 }
 
 var histories = []histDef{
-	{"twice", "Process, then Process again under the same options", false},
-	{"toggle", "Process, then IgnoreDeviateNotSupported toggled on the same Modules (nothing loaded in between), then Process", true},
-	{"back-getmodule", "Process, option toggled, Process, option set back, then GetModule (which runs Process)", false},
-	{"toggle-load", "Process (several times), then IgnoreDeviateNotSupported toggled and StoreUses set, a module that defines nothing loaded, then Process", true},
-	{"load-between", "fresh Modules under the opposite of IgnoreDeviateNotSupported / IgnoreSubmoduleCircularDependencies / StoreUses: base files loaded, Process, options set to the case's, deviating modules loaded, then Process", false},
-	{"reverse", "fresh Modules: all files loaded, Process under the opposite of IgnoreDeviateNotSupported / IgnoreSubmoduleCircularDependencies / StoreUses, options set to the case's (nothing loaded in between), then Process", false},
-	{"reverse-getmodule", "as before, then IgnoreDeviateNotSupported toggled once more, then GetModule (which runs Process)", true},
+	{"twice", "Process, Process again under the same options", false},
+	{"toggle", "Process, IgnoreDeviateNotSupported toggled with nothing loaded in between, Process", true},
+	{"back-getmodule", "Process, option toggled, Process, option set back, GetModule", false},
+	{"toggle-load", "Process, IgnoreDeviateNotSupported toggled, StoreUses set, an empty module loaded, Process", true},
+	{"load-between", "opposite of all three options, base files loaded, Process, options changed, deviating modules loaded, Process", false},
+	{"reverse", "all files loaded, Process under the opposite of all three options, options changed with nothing loaded in between, Process", false},
+	{"reverse-getmodule", "as `reverse`, then IgnoreDeviateNotSupported toggled once more, GetModule", true},
 }
 
 const histExtraMod = "zz-c08-hist-extra"
